@@ -177,6 +177,17 @@ theorem valid_iff (nodata : Option (X F)) (v : X F) :
     validX nodata v = true ↔ ∃ q, v = .fin q ∧ nodata ≠ some (.fin q) := by
   cases v <;> simp [validX]
 
+/-- **the filter of `_calc_stats` is that predicate**: the boolean mask the source selects the zone's values
+    with (`Gen.Zonal.maskCalcStats`, translated by harness/facts_zonal.py from the current `_calc_stats`),
+    read with NumPy's elementwise / IEEE semantics, keeps exactly the values that are finite and not equal to
+    `nodata_values` -- for every value (NaN, +-inf, finite) and every nodata (`None`, NaN, +-inf, finite).
+    A tolerant comparison (`np.isclose`), a dropped conjunct or a `>` in place of `!=` is not this predicate:
+    the generated mask changes (or is `unknown`) and this theorem does not check. -/
+theorem calc_stats_mask_fact (nodata : Option (X F)) (v : X F) :
+    Gen.Zonal.maskCalcStats.eval nodata v = validX nodata v := by
+  rcases nodata with _ | (_ | _ | _ | _) <;> cases v <;>
+    (try simp [Gen.Zonal.maskCalcStats, MExpr.eval, validX, ieeeEq, X.isFin]) <;> (try exact eq_comm)
+
 end builtin
 
 /-! ### why the fact matters: the unrepaired gather (D1) -/
